@@ -22,6 +22,7 @@ import EaselModel.Weights.SampleLemmas
 import EaselModel.Weights.Transfer
 import EaselModel.Weights.TieRule
 import EaselModel.Weights.TreeOpsLemmas
+import EaselModel.Weights.FloatCarrier
 /-! # C16 — sequence weights, identity filtering and clustering follow their definitions
 
   Theorems about the `ℚ` instance of the executable model `EaselModel.Weights` (the `Float` instance of the same
@@ -1184,5 +1185,55 @@ example : LinksAgree (eSimulate (α := ℚ) 4 [(1/2, 1), (1/3, 2)] (1/4)) := by
   rw [hN] at hg
   have : g = 0 ∨ g = 1 ∨ g = 2 := by omega
   rcases this with rfl | rfl | rfl <;> (unfold ChildOK; decide +kernel)
+
+/-! ## round 6b: thresholds exactly AT an attained identity, over a rounded number carrier
+
+  `Rd fl` = the model's number class with the division rounded by `fl`; `RoundingOK fl ε B`: `fl` monotone, exact at 0,
+  within ε on [0,1], and 2·ε·B² < 1 (binary64 division: ε = 2⁻⁵³; that it is such a rounding is trusted). The threshold is
+  `fl(p/q)`, 0 < q ≤ B, p ≤ q — e.g. the identity `(double) nid / (double) n` the code itself computed for some pair, or 0. -/
+
+/-- the test `pid >= maxid` of the link callbacks and of both filters, evaluated with rounded quotients, links exactly the
+    pairs whose EXACT identity reaches p/q — including the pair(s) whose identity IS p/q, and rows without residues (pid = 0,
+    linked iff p = 0) -/
+theorem threshold_linked_rounded_eq_exact {fl : ℚ → ℚ} {ε : ℚ} {B : Nat} (h : RoundingOK fl ε B) (m : Mode) (p q : Nat)
+    (hq : 0 < q) (hqB : q ≤ B) (hp : p ≤ q) (a b : Row) (ha : a.length ≤ B) :
+    linked (α := Rd fl) m ⟨fl ((p : ℚ) / q)⟩ a b = linked (α := ℚ) m ((p : ℚ) / q) a b :=
+  linked_rd h m p q hq hqB hp a b ha
+
+/-- hence `esl_msacluster_SingleLinkage` run with rounded quotients returns the clusters of the exact run: two rows share a
+    cluster iff they are connected in the graph linking rows of EXACT identity ≥ p/q -/
+theorem singleLinkage_rounded_threshold_components {fl : ℚ → ℚ} {ε : ℚ} {B : Nat} (h : RoundingOK fl ε B) (m : Mode)
+    (p q : Nat) (hq : 0 < q) (hqB : q ≤ B) (hp : p ≤ q) (rows : List Row) (hB : ∀ r ∈ rows, r.length ≤ B) (u w : Nat)
+    (hu : u < rows.length) (hw : w < rows.length) :
+    clusterIndex (msaSingleLinkage (α := Rd fl) m ⟨fl ((p : ℚ) / q)⟩ rows) u =
+        clusterIndex (msaSingleLinkage (α := Rd fl) m ⟨fl ((p : ℚ) / q)⟩ rows) w ↔
+      Reach (fun v x => decide ((p : ℚ) / q ≤ pid (α := ℚ) m (rows.getD v []) (rows.getD x []))) rows.length u w := by
+  rw [msaSingleLinkage_rd h m p q hq hqB hp rows hB]
+  exact msaSingleLinkage_components m _ rows u w hu hw
+
+/-- the identity filters (text: rows in order; digital / `_adv`: ANY order of trial) keep the same rows as the exact run -/
+theorem idFilter_rounded_threshold {fl : ℚ → ℚ} {ε : ℚ} {B : Nat} (h : RoundingOK fl ε B) (m : Mode) (p q : Nat)
+    (hq : 0 < q) (hqB : q ≤ B) (hp : p ≤ q) (rows : List Row) (hB : ∀ r ∈ rows, r.length ≤ B) :
+    (∀ order, idFilterOrder (α := Rd fl) m ⟨fl ((p : ℚ) / q)⟩ rows order = idFilterOrder (α := ℚ) m ((p : ℚ) / q) rows order) ∧
+    idFilterText (α := Rd fl) ⟨fl ((p : ℚ) / q)⟩ rows = idFilterText (α := ℚ) ((p : ℚ) / q) rows :=
+  ⟨fun order => idFilterOrder_rd h m p q hq hqB hp rows hB order,
+   idFilterOrder_rd h Mode.text p q hq hqB hp rows hB _⟩
+
+/-- the clusters behind the BLOSUM weights are those of the exact run; each weight is then 1/|cluster| rounded once, normalised -/
+theorem blosum_rounded_threshold_clusters {fl : ℚ → ℚ} {ε : ℚ} {B : Nat} (h : RoundingOK fl ε B) (m : Mode) (p q : Nat)
+    (hq : 0 < q) (hqB : q ≤ B) (hp : p ≤ q) (rows : List Row) (hB : ∀ r ∈ rows, r.length ≤ B) :
+    blosum (α := Rd fl) m ⟨fl ((p : ℚ) / q)⟩ rows =
+      if rows.length == 1 then [WNum.ofNat 1] else
+      normalizeToN ((assignment (msaSingleLinkage (α := ℚ) m ((p : ℚ) / q) rows) rows.length).map fun c =>
+        (WNum.ofNat 1 : Rd fl) / WNum.ofNat ((clusterSizes (assignment (msaSingleLinkage (α := ℚ) m ((p : ℚ) / q) rows) rows.length)
+          (msaSingleLinkage (α := ℚ) m ((p : ℚ) / q) rows).length).getD c 0)) :=
+  blosum_rd h m p q hq hqB hp rows hB
+
+/-- non-vacuity: a lossy rounding (every quotient shrunk by the relative amount 2⁻²⁰) meets the hypotheses for alignments
+    up to 400 columns; and at the threshold 2/3 = the identity of rows 0,1 the rounded run links them -/
+example : RoundingOK flRel (1 / 1048576) 400 := flRel_ok
+example : linked (α := Rd flRel) Mode.text ⟨flRel ((2 : ℕ) / (3 : ℕ))⟩ [65, 67, 45, 97] [97, 71, 45, 65] = true := by
+  rw [linked_rd flRel_ok Mode.text 2 3 (by decide) (by decide) (by decide) _ _ (by decide)]
+  decide +kernel
 
 end EaselModel.Props.C16
